@@ -195,12 +195,12 @@ func (m *C04Mon) probe(h *Hand, s *pokerface.GameState) {
 			who = "current"
 		}
 		if err == nil {
-			h.Trace = append(h.Trace, TraceStep{Op: p.op, Err: "(probe) accepted"})
+			h.Trace = append(h.Trace, TraceStep{Op: p.op, Err: "accepted", Kind: "probe"})
 			h.Fail("C04/accepted", fmt.Sprintf("op=%s,by=%s,at=%s", p.op.Name, who, ev), fmt.Sprintf("%+v at %s (current player %d, offered %v) returned no error", p.op, ev, s.Status.CurrentPlayer, s.Players[maxInt(0, p.op.Seat)%n].AllowedActions))
 			return
 		}
 		if after := snapJSON(g.GetState()); after != before {
-			h.Trace = append(h.Trace, TraceStep{Op: p.op, Err: "(probe) " + err.Error()})
+			h.Trace = append(h.Trace, TraceStep{Op: p.op, Err: err.Error(), Kind: "probe"})
 			h.Fail("C04/refused-but-changed", fmt.Sprintf("op=%s,by=%s,at=%s", p.op.Name, who, ev), fmt.Sprintf("%+v at %s was refused (%v) but changed the state:\n before=%s\n after=%s", p.op, ev, err, before, after))
 			return
 		}
